@@ -102,8 +102,8 @@ PROPS = {
         "level": "other",
         "lean": ["PasfmtModel.Props.C04"],
         "streams": [
-            {"stream": "fmt", "families": "soup,bytes,mutate,directives,seeds_sample,layout", "quick": 4000, "thorough": 80000,
-             "binding": ["*"], "args": {"oracles": "c15", "timeout_ms": 20000}},
+            {"stream": "fmt", "families": "soup,bytes,mutate,directives,seeds_sample,layout,deepnest", "quick": 4200, "thorough": 80000,
+             "binding": ["*"], "args": {"oracles": "c15,c04", "timeout_ms": 20000}},
             {"stream": "parse", "families": "soup,bytes,mutate,directives,layout", "quick": 3000, "thorough": 40000, "name": "counters"},
             {"stream": "fmt", "name": "enum", "families": "soup_enum", "quick": 3000, "thorough": 1010100, "multi_seed": False,
              "binding": ["*"], "args": {"timeout_ms": 20000}},
@@ -114,7 +114,7 @@ PROPS = {
                        "(passes_linear), token lengths sum to the input length, line-builder references stay valid for every control "
                        "flow; every model function is total. Monitor: every case runs under catch_unwind with a 20 s hang detector "
                        "(two orders of magnitude above the slowest legitimate case), debug build (overflow and bounds checks on); "
-                       "deterministic work counters (passes, primitive operations) are compared with linear bounds; token sequences "
+                       "deterministic work counters (passes, primitive operations, line-wrapping searches counted by a guarded hook) are compared with linear bounds, also on a family of deeply nested constructs (anonymous routines as arguments, parentheses, blocks, if/case chains, generics, conditional directives); token sequences "
                        "over a 116-token alphabet are enumerated (all of length <= 3 in thorough).",
         "assumptions": ["parser control flow and the wrapper's search are not modelled: their termination is monitored, not proved",
                         "stack depth is not a notion of the model (known finding F2)"],
